@@ -397,7 +397,9 @@ def run_part(part, P, pid, tier, seed, sdir, only, binaries, gen_path, idx):
                 continue
             raise vf.NoVerdict("harness (%s) exited with %d:\n%s" % (part["mode"], rc, hout[-3000:]))
         else:
-            raise vf.NoVerdict("harness keeps crashing")
+            # the library panics in scenario after scenario: what was recorded so far (every crash is attributed to its
+            # scenario) is judged; the rest of the run is given up
+            print("note: the library crashed in %d scenarios of this run (%s...); the remaining scenarios were not run" % (len(crashes), crashes[:5]))
         if race:
             rr = parse_race_logs(sdir, racepfx)
             with open(out, "a") as fh:
